@@ -650,16 +650,29 @@ def eval3(e, atom: Callable[[ast.AST], Optional[bool]]):
     return atom(e)
 
 
-def exec_under(stmts, atom: Callable[[ast.AST], Optional[bool]]):
+def _exits_inside(st) -> bool:
+    """a compound statement that may leave the enclosing block other than by falling through"""
+    for n in ast.walk(st):
+        if isinstance(n, (ast.Return, ast.Raise)):
+            return True
+        if isinstance(n, (ast.FunctionDef, ast.AsyncFunctionDef, ast.Lambda)):
+            continue
+    if isinstance(st, (ast.Try, ast.With)):
+        return any(isinstance(n, (ast.Break, ast.Continue)) for n in ast.walk(st))
+    return False
+
+
+def exec_under(stmts, atom: Callable[[ast.AST], Optional[bool]], opaque: bool = False):
     """(simple statements executed in order, outcome) of a block of if-trees when the tests are decided by `atom`;
-    outcome 'unknown' when a test is undecided or a compound statement other than `if` is met (the statement is the last effect)"""
+    outcome 'unknown' when a test is undecided or a compound statement other than `if` is met (the statement is the last effect).
+    With opaque=True a loop / try / with that cannot leave the block is one effect and execution goes on after it."""
     eff = []
     for st in stmts:
         if isinstance(st, ast.If):
             c = eval3(st.test, atom)
             if c is None:
                 return eff + [st], "unknown"
-            e, k = exec_under(st.body if c else st.orelse, atom)
+            e, k = exec_under(st.body if c else st.orelse, atom, opaque)
             eff += e
             if k != "fall":
                 return eff, k
@@ -672,6 +685,9 @@ def exec_under(stmts, atom: Callable[[ast.AST], Optional[bool]]):
         elif isinstance(st, ast.Raise):
             return eff + [st], "raise"
         elif isinstance(st, (ast.For, ast.While, ast.Try, ast.With, ast.Match)):
+            if opaque and not isinstance(st, ast.Match) and not _exits_inside(st):
+                eff.append(st)
+                continue
             return eff + [st], "unknown"
         elif isinstance(st, ast.Pass) or (isinstance(st, ast.Expr) and isinstance(st.value, ast.Constant)):
             continue
